@@ -41,6 +41,25 @@ type ShardResult struct {
 	Notes        []string
 }
 
+// Bail reports whether the shard should stop early: several executions
+// already ended in a watchdog, so the tree under test hangs and every
+// further case would cost a full watchdog period.
+func (s *ShardResult) Bail() bool {
+	n := 0
+	for _, x := range s.Inconclusive {
+		if strings.Contains(x, "watchdog") {
+			n++
+		}
+	}
+	if n >= 4 {
+		if len(s.Notes) == 0 || !strings.HasPrefix(s.Notes[len(s.Notes)-1], "bailed out") {
+			s.Notes = append(s.Notes, fmt.Sprintf("bailed out after %d watchdog timeouts", n))
+		}
+		return true
+	}
+	return false
+}
+
 // NewShardResult allocates the maps.
 func NewShardResult() *ShardResult {
 	return &ShardResult{Counters: map[string]int64{}, Units: map[string]int{}, Configs: map[string]int{}, NotReached: map[string]int{}}
